@@ -30,7 +30,7 @@ class FuncInfo:
 
     @property
     def is_property(self):
-        return "property" in self.decorators
+        return "property" in self.decorators or "cached_property" in self.decorators
 
     @property
     def is_classmethod(self):
